@@ -8,14 +8,17 @@ PID = "C01"
 LEAN_MODULES = ["QbiceVerif.Props.C01"]
 DRIVER = "drv_engine"
 HARNESS_BIN = "engine"
-SINGLE = ["f1", "f14"]
+SINGLE = []      # no known finding left for the acyclic engine (F1, F14 fixed by 2abe9f6, b832249)
 PARTIAL = [
-    "core_query_sound / core_session_inv / core_history_sound / core_*_no_out_of_fuel are proved in full for the core "
-    "model = programs of input, normal and external-input queries with ordered reads and unordered read groups, dynamic "
-    "dependency sets, set / refresh / world writes (static rank = key index). Firewall / projection nodes, transitive-firewall-callee sets and backward projection "
-    "live in the full model (Model/Engine.lean), which is tied to the code by correspondence; its "
-    "soundness is refuted as-is (known findings F1, F14: canonical replays) and not yet proved for the repaired "
-    "configuration.",
+    "Qbice.CoreFw.core_query_sound_partial / core_inner_query_sound_partial / core_history_sound_partial / "
+    "core_*_no_out_of_fuel_partial: proved for ALL acyclic programs WITHOUT projection nodes (input, normal, firewall, "
+    "external-input queries; ordered reads and unordered groups; transitive-firewall-callee sets, the trust rule for "
+    "clean edges, same-epoch propagation from a changed firewall, pending flags) = the design of the code after the "
+    "fixes b832249 and 2abe9f6. Projection nodes (backward projection) are in the model (validated against the full "
+    "model and the oracle on 240 000 generated cases with 0 differences, and compared with the implementation on every "
+    "run) but the invariant for pending flags over projection chains is not proved: C01_full_statement / "
+    "C01_termination_full_statement are kept as defs. The firewall-free theorems (Qbice.Core.*) remain, and C07/C08 "
+    "build on them.",
 ]
 ASSUMPTIONS = [
     "fingerprints are injective on the values of a run (value = fingerprint in the models; C13)",
